@@ -396,6 +396,9 @@ func c08Run(in V) V {
 		var err error
 		if depth == 0 {
 			n, err = thrift.Binary.Skip(gb, t)
+			if n2, err2, pan, ran := skipOnStack(gb, t); ran && (pan || (err == nil) != (err2 == nil) || (err == nil && n2 != n) || (err != nil && err2 != nil && err.Error() != err2.Error())) {
+				return VL{Ls(I(-96), I(n2))} // the same bytes on a stack-resident buffer gave another result
+			}
 		} else {
 			if len(gb) == 0 {
 				return notRun
